@@ -184,3 +184,24 @@ def scalar_corpus():
                    (schema.list(s).len(1, 2), [w]), (schema.any(schema.none, s), w),
                    (schema.list([..., s, ...]), [None, w, None])]
     return out + nested
+
+
+def list_form_value_cases(ctx):
+    """directed: every element-list form with 1..3 body elements against all short value sequences over a small member
+    universe (so that the best window of the contains form starts at every offset, with element-level errors inside)"""
+    import itertools
+    from d42 import schema
+    bodies = [[schema.int(1), schema.int(2)], [schema.str, schema.int], [schema.int(1)], [schema.int, schema.int(2), schema.str("a")],
+              [schema.dict({"id": schema.int(1)}), schema.int(2)]]
+    members = [0, 1, 2, "a", {"id": 1}, {"id": 2}]
+    out = []
+    for body in bodies:
+        for els in ([...] + body + [...], [...] + body, body + [...], list(body)):
+            for s in (schema.list(els), schema.dict({"items": schema.list(els), "n": schema.int})):
+                for n in range(0, 5):
+                    for combo in itertools.product(range(len(members)), repeat=n):
+                        if n >= 3 and ctx.rnd.random() < ctx.n(0.85, 0.5):
+                            continue
+                        v = [members[i] if not isinstance(members[i], dict) else dict(members[i]) for i in combo]
+                        out.append(ValCase(s, v if s.__class__.__name__ == "ListSchema" else {"items": v, "n": 1}, "listform"))
+    return out
